@@ -412,6 +412,52 @@ const handlers = {
     return { dump: JSON.parse(JSON.stringify(dumpRoot(inst.root), (k, v) => (typeof v === 'function' || v === undefined || (typeof v === 'number' && !Number.isFinite(v)) ? show(v) : v))) }
   },
 
+  // C12: strings at the runtime boundary, as UTF-16 code units. Probe i is top-level node i (checked by data:n).
+  strings(req) {
+    const S = (u) => String.fromCharCode(...u)
+    const U = (s) => Array.from({ length: s.length }, (_, i) => s.charCodeAt(i))
+    let G
+    try { G = loadBundle(req.bundle) } catch (e) { return { error: 'bundle: ' + String(e && e.stack || e) } }
+    const o = Object.create(null)
+    for (const m of req.members || []) o[S(m)] = 'ok'
+    const D = { n1: 1, names: (req.names || []).map(S), o }
+    let dump
+    try { const inst = instantiate(G, req.entry); inst.w.create(D); dump = dumpRoot(inst.root) } catch (e) { return { createThrew: String(e && e.stack || e) } }
+    const only = (obj, skip) => {
+      const ks = Object.keys(obj || {}).filter((k) => k !== skip)
+      return ks.length === 1 ? ks[0] : { bad: 'keys ' + JSON.stringify(ks) }
+    }
+    const results = req.locators.map((loc, i) => {
+      const n = dump[i]
+      if (!n) return { other: 'no node for this probe (' + dump.length + ' top-level nodes)' }
+      const rec = n.rec || {}
+      if (!rec.d || rec.d.n !== String(i)) return { other: 'top-level node ' + i + ' is not this probe: ' + show(n).slice(0, 120) }
+      let v
+      switch (loc) {
+        case 'text': v = n.kids && n.kids.length === 1 && n.kids[0].k === 't' ? n.kids[0].text : { bad: 'children ' + show(n.kids).slice(0, 160) }; break
+        case 'r': v = rec.r && rec.r.a ? rec.r.a.v : { bad: 'no attribute a: ' + show(rec.r).slice(0, 120) }; break
+        case 'c': v = rec.c; break
+        case 'y': v = rec.y; break
+        case 'i': v = rec.i; break
+        case 'slot': v = n.slot; break
+        case 'd': v = rec.d.k; break
+        case 'm': v = rec.m && rec.m.k; break
+        case 'v': v = rec.v && rec.v['tap|000'] ? rec.v['tap|000'].v : { bad: 'no tap listener: ' + show(rec.v).slice(0, 120) }; break
+        case 'sname': v = n.k === 's' ? n.name : { bad: 'not a slot' }; break
+        case 'dk': v = only(rec.d, 'n'); break
+        case 'mk': v = only(rec.m); break
+        case 'rk': v = only(rec.r); break
+        case 'gk': v = only(n.generics); break
+        case 'vk': { const k = only(rec.v); v = typeof k === 'string' ? (k.endsWith('|000') ? k.slice(0, -4) : { bad: 'flags ' + k }) : k; break }
+        case 'objk': v = rec.r && rec.r.a && rec.r.a.v && typeof rec.r.a.v === 'object' ? only(rec.r.a.v) : { bad: 'not an object' }; break
+        default: v = { bad: 'locator ' + loc }
+      }
+      if (typeof v === 'string') return { u: U(v) }
+      return { other: v && v.bad ? v.bad : typeof v + ' ' + show(v).slice(0, 120) }
+    })
+    return { results }
+  },
+
   // C11 get-put law: for each data path observed (model path, or general path with prefix 0) write a sentinel at that
   // path in a fresh copy of the data, create again and read the same binding: it must be the sentinel. Cases where the
   // write cannot be done (a container on the way is missing / not an object) or where it changes the structure or the
